@@ -59,6 +59,7 @@ pub fn run(ctx: &mut Ctx, is_req: bool, cap: usize, steps: &[Step], backend: Bac
         for s in steps {
             let pc = mkcfg(s.cfg);
             let len_before = req.headers.len();
+            crate::obs::IN_MONITORED_CALL.with(|c| c.set(true));
             let r = catch_unwind(AssertUnwindSafe(|| match s.entry {
                 Entry::R1 => req.parse(s.buf),
                 Entry::R2 => pc.parse_request(&mut req, s.buf),
@@ -66,6 +67,7 @@ pub fn run(ctx: &mut Ctx, is_req: bool, cap: usize, steps: &[Step], backend: Bac
                 Entry::R4 => pc.parse_request_with_uninit_headers(&mut req, s.buf, take_uninit(s.ucap)),
                 _ => panic!("harness: not a request entry"),
             }));
+            crate::obs::IN_MONITORED_CALL.with(|c| c.set(false));
             let st = st_of(&r.as_ref().ok().cloned());
             let mut res = Res::new(st);
             res.method = loc_str(s.buf, req.method);
@@ -85,12 +87,14 @@ pub fn run(ctx: &mut Ctx, is_req: bool, cap: usize, steps: &[Step], backend: Bac
         for s in steps {
             let pc = mkcfg(s.cfg);
             let len_before = resp.headers.len();
+            crate::obs::IN_MONITORED_CALL.with(|c| c.set(true));
             let r = catch_unwind(AssertUnwindSafe(|| match s.entry {
                 Entry::S1 => resp.parse(s.buf),
                 Entry::S2 => pc.parse_response(&mut resp, s.buf),
                 Entry::S4 => pc.parse_response_with_uninit_headers(&mut resp, s.buf, take_uninit(s.ucap)),
                 _ => panic!("harness: not a response entry"),
             }));
+            crate::obs::IN_MONITORED_CALL.with(|c| c.set(false));
             let st = st_of(&r.as_ref().ok().cloned());
             let mut res = Res::new(st);
             res.version = resp.version;
